@@ -392,6 +392,20 @@ let transport_case (toks : string list) : string =
         match List.find_opt (fun (p, _) -> int_of_nat p = i) st.M.settled0 with
         | Some (_, v) when int_of_nat v = scale n -> string_of_int n | Some (_, v) -> "scaled" ^ string_of_int (int_of_nat v) | None -> "P") sizes in
     Printf.sprintf "F bytes=%d content=1 calls=0 p=%s twice=0" (if ok then List.fold_left ( + ) 0 sizes else List.length st.M.wire) (String.concat "," vals)
+  | "G" :: nt :: nw :: sz :: _ ->
+    (* several producers: the cross-thread queue keeps each producer's order (C13) and the drain loop sends whole
+       entries one after the other (C06 invariant): run the write-path model on one interleaving of the producers *)
+    let nt = int_of_string nt and nw = int_of_string nw and sz = int_of_string sz in
+    let each = 17 + min sz 32 in   (* the model is size-independent; keep the lists short *)
+    let order = List.concat (List.init nw (fun _ -> List.init nt (fun t -> t))) in
+    let bufs = List.map (fun t -> List.init each (fun _ -> ascii_of_int (97 + t))) order in
+    let total = each * nt * nw in
+    let pass = List.init (nt * nw + 2) (fun _ -> M.Acc (nat_of_int (total + 1))) in
+    let st = M.events (nat_of_int (nt * nw + 4)) (M.issue bufs) pass in
+    let delivered = List.length st.M.wire = total in
+    let fulfilled = List.length (List.filter (fun (_, v) -> int_of_nat v = each) st.M.settled0) in
+    Printf.sprintf "G bytes=%d whole=%d torn=0 misordered=0 fulfilled=%d other=%d"
+      (if delivered then (17 + sz) * nt * nw else List.length st.M.wire) (if delivered then nt * nw else 0) fulfilled (nt * nw - fulfilled)
   | "S" :: _ -> "S b_answered=1 b_latency_ok=1 spin=0 a_content=1 a_value=1"
   | [ "E"; _busy; size ] ->
     (* the kernel takes a part, then refuses; later one poll result reports the descriptor readable AND writable *)
